@@ -94,6 +94,16 @@ Theorem C14_bounded_work : forall reqauth ops sched,
 Proof. intros. apply effective_bound, total_init. Qed.
 Print Assumptions C14_bounded_work.
 
+(* support for the unproved full statement, on the MODEL: for a family of small configurations (a populated
+   session, then 3-4 operations racing on one fid: clone/clunk/re-use, Create whose OpenDir fails, failing
+   allocations, in-place walk, open/read/write, auth fids, double release, ...) EVERY interleaving of the
+   atomic steps - including those the harness cannot drive, e.g. an operation paused between its table
+   lookup and its Lock - ends with all operations returned and a history accepted by [lin_check]
+   (vm_compute over all reachable states; 20..900 distinct completed histories per configuration) *)
+Theorem C14_linearizable_small_scopes : forallb scenario_ok scenarios = true.
+Proof. exact small_scopes_linearizable. Qed.
+Print Assumptions C14_linearizable_small_scopes.
+
 (* "one program run alone = the sequential semantics": [seq_op] (what [lin_check] replays) IS the operation's
    program run alone on the session state, by definition.  What needs proof is that this is a semantics at
    all: from a state in which no mutex is held - the state between operations, by
@@ -137,3 +147,7 @@ Proof. exact ex_lin_accepts. Qed.
    attach(2) fails) *)
 Example C14_lin_check_rejects : lin_check false ex_hist_bad = None.
 Proof. exact ex_lin_rejects. Qed.
+
+(* the exhaustive exploration finds the pre-fix delRef's non-linearizable interleaving (4 operations) *)
+Example C14_small_scopes_reject_old_delRef : fst old_delref_scenario = false.
+Proof. exact old_delref_not_linearizable. Qed.
